@@ -197,6 +197,15 @@ class Gen:
         ret = None
         if self.chance("p_ret"):
             ret = self.arg_type(mod)
+        if not vfunc and self.want_miss():
+            if names and rng.random() < 0.5:
+                k = rng.randrange(len(names))
+                names[k] = (names[k][0], rng.choice(["Missing%d" % self.uid, "*const Missing%d" % self.uid]))
+                args = args[:len(args) - len(names)] + ["%s: %s" % x for x in names]
+                self.expect["miss"] = "unresolvable parameter type"
+            else:
+                ret = rng.choice(["Missing%d" % self.uid, "*mut Missing%d" % self.uid])
+                self.expect["miss"] = "unresolvable return type"
         pub = rng.random() < 0.75
         text = docs
         if attrs:
@@ -499,7 +508,7 @@ class Gen:
                     off = natural - 1
                     explicit = True
                     miss_here = "overlap by one"
-                elif not packed and align > 1:
+                elif not packed and align > 1 and not (zero_array and size == 0):
                     off = natural + (a - natural % a) % a + 1
                     explicit = True
                     miss_here = "address off alignment by one"
